@@ -134,9 +134,12 @@ def model_req(case, executed):
                 "procs": [{"kind": (p["kind"] if p["kind"] != "N" else "S"), "lp": p.get("lp"), "tries": p.get("tries", 0),
                            "path": (eff_path(p) if p["kind"] != "N" else []),
                            "explicit": p.get("explicit", True), "user": p.get("user")} for p in case["procs"]]}
-    return {"m": "c09", "op": "run", "sched": executed,
-            "procs": [{"kind": p["kind"], "lp": p.get("lp"), "tries": p.get("tries", 0), "user": p.get("user")}
-                      for p in case["procs"]]}
+    req = {"m": "c09", "op": "run", "sched": executed,
+           "procs": [{"kind": p["kind"], "lp": p.get("lp"), "tries": p.get("tries", 0), "user": p.get("user")}
+                     for p in case["procs"]]}
+    if case.get("stale"):
+        req["stale"] = case["stale"]
+    return req
 
 
 def model_view(ans):
@@ -370,8 +373,24 @@ def oracle(case, r):
         what = "exclusive holder %d and process %d (%s) in their command bodies together after step %d" % (
             a, b, "unlocked" if v.get("unlocked") else "holding", v["step"])
         yield ("mutex", v["class"], what)
-    if all(o in ("done",) or o.startswith("failed") for o in r["outcomes"]) and r["residue"]:
+    ghosts = [(k, int(g)) for k, g in (case.get("stale") or [])]
+    left = [x for x in r["residue"] if x not in ["%s%d" % (k, g) for k, g in ghosts]] if ghosts else r["residue"]
+    if ghosts and left == [G.LOCKDIR] and len(left) < len(r["residue"]):
+        left = []       # the lock of a killed process was never released: it, and its directory, are not residue of a release
+    if all(o in ("done", "killed") or o.startswith("failed") for o in r["outcomes"]) and left:
         yield ("no_residue", residue_class(case, r), "every process has finished and %r is left" % (r["residue"],))
+    if ghosts:
+        # a stale lock blocks: before the administrator clears it, nobody incompatible with it (and not its owner's child)
+        # gets into its command body
+        for t in r["trace"]:
+            if t[1] == "clearLocks":
+                break
+            if t[1] == "work":
+                sp = case["procs"][t[0]]
+                for k, g in ghosts:
+                    if sp.get("lp") != g and (k == "E" or sp["kind"] == "E"):
+                        yield ("stale_lock_blocks", None, "process %d (%s) was in its command body beside the stale %s lock of %d" % (
+                            t[0], sp["kind"], k, g))
     for o in r["outcomes"]:
         if o.startswith("crash") or o.startswith("pending") or o == "timeout":
             yield ("terminates", None, "process ended as %s" % o)
@@ -620,6 +639,25 @@ def signal_case(rng):
     return c
 
 
+def admin_case(rng):
+    """a stale lock (file of a killed process), requests against it, `eups admin listLocks`, `eups admin clearLocks` (only
+    while no live process is engaged: it is the administrator's override and spares nobody), requests after it"""
+    gk = rng.choice("ES")
+    procs = [P(rng.choice("ES"), tries=rng.choice([0, 1, 2]), explicit=rng.random() < 0.8, user=pick_user(rng)),
+             P(rng.choice("ES"), tries=rng.choice([0, 1]), user=pick_user(rng))]
+    sched = []
+    if rng.random() < 0.4:
+        procs.append(P(rng.choice("ES"), lp=9, tries=0))        # a child of the dead process re-enters its lock
+        sched += [2] * 12
+    sched = [G.EV_LIST] * rng.choice([0, 1]) + sched + [0] * 26 + [G.EV_LIST] * rng.choice([0, 1])
+    if rng.random() < 0.75:
+        sched += [G.EV_CLEAR, G.EV_LIST]
+    sched += [1, 1, 1, G.EV_LIST] + [1] * 12
+    if rng.random() < 0.3:
+        sched += [G.EV_CLEAR, G.EV_LIST]
+    return {"procs": procs, "stale": [[gk, 9]], "sched": sched, "src": "admin"}
+
+
 def name_cases():
     """every login name of USERS on a phase-atomic order that needs the holder's file to be recognised: an exclusive
     holder keeps an unrelated reader out and lets its own children (under yet other names) re-enter"""
@@ -721,6 +759,12 @@ def evaluate(ctx, cases):
     for c, r, a in zip(cases, impl, answers):
         iv, mv = impl_view(r), model_view(a)
         inp = {"procs": c["procs"], "sched": r["executed"], "base": c.get("base", "default")}
+        if c.get("stale"):
+            inp["stale"] = c["stale"]
+            ctx.hist("with_stale_lock")
+            for t in r["trace"]:
+                if t[1] in ("clearLocks", "listLocks"):
+                    ctx.hist("admin=" + t[1])
         if c.get("signal"):
             inp["signal"] = c["signal"]
         if is_path_case(c):
@@ -891,6 +935,7 @@ def generated(ctx, sizes, three_limit):
             [random_case(ctx.rng, 3) for _ in range(r3)], [random_case(ctx.rng, 4) for _ in range(r4)],
             [random_case(ctx.rng, 2) for _ in range(r2)], [phase_case(ctx.rng) for _ in range(nphase)],
             [path_case(ctx.rng) for _ in range(npath)], [signal_case(ctx.rng) for _ in range(nsig)],
+            [admin_case(ctx.rng) for _ in range(max(20, nsig // 3))],
             cmd_cases(ctx.rng, ncmd)]
 
 
@@ -929,6 +974,8 @@ def run(ctx):
             ctx.evaluations, ctx.histogram.get("overlapping", 0)))
     if not ctx.histogram.get("mkdir_refused_read_only_stack") or not ctx.histogram.get("read_only_and_writable_stack_in_one_path"):
         raise common.InfraError("no case of this run had a stack the locker cannot write to")
+    if not ctx.histogram.get("admin=clearLocks") or not ctx.histogram.get("admin=listLocks"):
+        raise common.InfraError("no case of this run had a stale lock cleared by `eups admin clearLocks`")
     if not ctx.histogram.get("signal_delivered_in_body"):
         raise common.InfraError("no signal was delivered to a command body in this run")
     for ev in ("request_withdrawn", "retry_after_withdrawal", "create_found_directory_removed", "retry_after_directory_removed",
@@ -979,6 +1026,8 @@ def replay(ctx, rp):
     case = {"procs": c["procs"], "sched": c["sched"], "base": c.get("base", "default"), "drain": True}
     if c.get("signal"):
         case["signal"] = c["signal"]
+    if c.get("stale"):
+        case["stale"] = c["stale"]
     if "ndirs" in c:
         case["ndirs"] = c["ndirs"]
     if c.get("phases"):
